@@ -17,11 +17,260 @@ type PathQuery struct {
 	CutEdge func(b *ssa.BasicBlock, succ int) bool
 	// CutInstr: a path is stopped when it reaches this instruction (it is not "passed").
 	CutInstr func(in ssa.Instruction) bool
+	// FromBlock: with from == nil, start at the first instruction of this block instead of the entry.
+	FromBlock *ssa.BasicBlock
+	// Shallow: do not use callee summaries (cuts are looked for in this function only).
+	Shallow bool
+	// DeepTo: the target predicate may also be satisfied inside a statically resolved first-party callee.
+	DeepTo bool
 }
 
 // PathExists reports whether `to` is reachable from just after `from`
 // (from == nil: from function entry) without crossing a cut.
+//
+// The search is summary-aware for statically resolved first-party callees (bounded depth):
+//   - a call whose callee has no uncut path from its entry to a return is itself a cut
+//     (the callee always passes a CutInstr / only returns over CutEdge edges, or never returns);
+//   - a branch on the boolean result of such a callee is cut when every path in the callee
+//     that can return that boolean value crosses a cut edge ("helper returns true => fact");
+//   - with DeepTo, the target may also lie inside such a callee.
 func PathExists(fn *ssa.Function, from ssa.Instruction, to func(ssa.Instruction) bool, q PathQuery) (bool, ssa.Instruction) {
+	s := &pathSearch{q: q, passable: map[*ssa.Call]int{}, mayRet: map[retKey]int{}}
+	saved := activeCtx
+	activeCtx = nil
+	defer func() { activeCtx = saved }()
+	return s.search(fn, from, to, 0)
+}
+
+const maxSummaryDepth = 4
+
+type retKey struct {
+	call  *ssa.Call
+	truth bool
+}
+
+type pathSearch struct {
+	q        PathQuery
+	passable map[*ssa.Call]int // 0 unknown, 1 yes, 2 no, 3 in progress (per call site: facts are read in the caller's terms)
+	mayRet   map[retKey]int
+}
+
+// activeCtx is the stack of call sites through which the current path search has descended.
+// Origins (and the rules' sameVar) resolve a callee parameter to the argument at that site, and
+// a read of a parameter's field the callee never writes to the caller's dominating store, so a
+// predicate written for the caller's values recognises the same fact inside an extracted helper.
+// Analyses run sequentially; a nested top-level search saves and restores the stack.
+var activeCtx []*ssa.Call
+
+// CtxArg resolves a parameter of a function the active search descended into to the argument
+// passed at the call site (nil when v is not such a parameter).
+func CtxArg(v ssa.Value) ssa.Value {
+	p, ok := v.(*ssa.Parameter)
+	if !ok {
+		return nil
+	}
+	for i := len(activeCtx) - 1; i >= 0; i-- {
+		c := activeCtx[i]
+		if c.Call.StaticCallee() != p.Parent() {
+			continue
+		}
+		for k, fp := range p.Parent().Params {
+			if fp == p && k < len(c.Call.Args) {
+				return c.Call.Args[k]
+			}
+		}
+	}
+	return nil
+}
+
+// ctxCallFor returns the active call site whose callee is fn.
+func ctxCallFor(fn *ssa.Function) *ssa.Call {
+	for i := len(activeCtx) - 1; i >= 0; i-- {
+		if activeCtx[i].Call.StaticCallee() == fn {
+			return activeCtx[i]
+		}
+	}
+	return nil
+}
+
+// ResolveCtx follows parameters through the active call context to caller values.
+func ResolveCtx(v ssa.Value) ssa.Value {
+	for i := 0; i < 8; i++ {
+		a := CtxArg(v)
+		if a == nil {
+			return v
+		}
+		v = a
+	}
+	return v
+}
+
+// staticFirstParty returns the statically resolved callee of a plain call when its body is loaded.
+func staticFirstParty(in ssa.Instruction) *ssa.Function {
+	c, ok := in.(*ssa.Call)
+	if !ok {
+		return nil
+	}
+	h := c.Call.StaticCallee()
+	if h == nil || len(h.Blocks) == 0 {
+		return nil
+	}
+	return h
+}
+
+func isReturn(in ssa.Instruction) bool { _, ok := in.(*ssa.Return); return ok }
+
+// calleePassable: some uncut path leads from the callee's entry to one of its returns.
+func (s *pathSearch) calleePassable(call *ssa.Call, h *ssa.Function, depth int) bool {
+	if s.q.CutInstr == nil && s.q.CutEdge == nil {
+		return true
+	}
+	switch s.passable[call] {
+	case 1, 3:
+		return true
+	case 2:
+		return false
+	}
+	if depth >= maxSummaryDepth {
+		return true
+	}
+	s.passable[call] = 3
+	activeCtx = append(activeCtx, call)
+	ok, _ := s.search(h, nil, isReturn, depth+1)
+	activeCtx = activeCtx[:len(activeCtx)-1]
+	if ok {
+		s.passable[call] = 1
+	} else {
+		s.passable[call] = 2
+	}
+	return ok
+}
+
+// cutEdge: the edge is cut by the query, or its condition is the boolean result of a
+// first-party helper that cannot return that value without crossing a cut.
+func (s *pathSearch) cutEdge(b *ssa.BasicBlock, i int, depth int) bool {
+	if s.q.CutEdge == nil {
+		return false
+	}
+	if s.q.CutEdge(b, i) {
+		return true
+	}
+	if len(b.Instrs) == 0 || len(b.Succs) != 2 {
+		return false
+	}
+	ifi, ok := b.Instrs[len(b.Instrs)-1].(*ssa.If)
+	if !ok {
+		return false
+	}
+	cond, truth := ifi.Cond, i == 0
+	for {
+		u, ok := cond.(*ssa.UnOp)
+		if !ok || u.Op != token.NOT {
+			break
+		}
+		cond, truth = u.X, !truth
+	}
+	h := staticFirstParty(asInstr(cond))
+	if h == nil || depth >= maxSummaryDepth {
+		return false
+	}
+	res := h.Signature.Results()
+	if res.Len() != 1 {
+		return false
+	}
+	if bt, ok := res.At(0).Type().Underlying().(*types.Basic); !ok || bt.Kind() != types.Bool {
+		return false
+	}
+	call := cond.(*ssa.Call)
+	activeCtx = append(activeCtx, call)
+	may := s.mayReturn(call, h, truth, depth+1)
+	activeCtx = activeCtx[:len(activeCtx)-1]
+	return !may
+}
+
+func asInstr(v ssa.Value) ssa.Instruction {
+	in, _ := v.(ssa.Instruction)
+	return in
+}
+
+// mayReturn: the helper has an uncut path to a return that can yield `truth`.
+func (s *pathSearch) mayReturn(call *ssa.Call, h *ssa.Function, truth bool, depth int) bool {
+	k := retKey{call, truth}
+	switch s.mayRet[k] {
+	case 1, 3:
+		return true
+	case 2:
+		return false
+	}
+	s.mayRet[k] = 3
+	res := false
+	fakeCut := func(v ssa.Value) bool {
+		fake := &ssa.BasicBlock{Instrs: []ssa.Instruction{&ssa.If{Cond: v}}, Succs: []*ssa.BasicBlock{{}, {}}}
+		slot := 0
+		if !truth {
+			slot = 1
+		}
+		return s.cutEdge(fake, slot, depth)
+	}
+	for _, r := range Returns(h) {
+		if len(r.Results) != 1 {
+			res = true
+			break
+		}
+		v := r.Results[0]
+		if bv, isConst := BoolConst(v); isConst {
+			if bv != truth {
+				continue
+			}
+			if ok, _ := s.search(h, nil, IsInstr(r), depth); ok {
+				res = true
+			}
+		} else if phi, ok := v.(*ssa.Phi); ok && phi.Block() == r.Block() {
+			for pi, e := range phi.Edges {
+				if bv, isConst := BoolConst(e); isConst {
+					if bv != truth {
+						continue
+					}
+				} else if fakeCut(e) {
+					continue
+				}
+				pred := phi.Block().Preds[pi]
+				cutIn := false
+				for si, sb := range pred.Succs {
+					if sb == phi.Block() && s.cutEdge(pred, si, depth) {
+						cutIn = true
+					}
+				}
+				if cutIn {
+					continue
+				}
+				term := pred.Instrs[len(pred.Instrs)-1]
+				if ok, _ := s.search(h, nil, IsInstr(term), depth); ok {
+					res = true
+				}
+			}
+		} else {
+			if fakeCut(v) {
+				continue
+			}
+			if ok, _ := s.search(h, nil, IsInstr(r), depth); ok {
+				res = true
+			}
+		}
+		if res {
+			break
+		}
+	}
+	if res {
+		s.mayRet[k] = 1
+	} else {
+		s.mayRet[k] = 2
+	}
+	return res
+}
+
+func (s *pathSearch) search(fn *ssa.Function, from ssa.Instruction, to func(ssa.Instruction) bool, depth int) (bool, ssa.Instruction) {
+	q := s.q
 	if len(fn.Blocks) == 0 {
 		return false, nil
 	}
@@ -31,7 +280,9 @@ func PathExists(fn *ssa.Function, from ssa.Instruction, to func(ssa.Instruction)
 		idx int
 	}
 	var work []st
-	if from == nil {
+	if from == nil && q.FromBlock != nil && depth == 0 {
+		work = append(work, st{q.FromBlock, 0})
+	} else if from == nil {
 		work = append(work, st{fn.Blocks[0], 0})
 		visited[fn.Blocks[0]] = true
 	} else {
@@ -46,11 +297,11 @@ func PathExists(fn *ssa.Function, from ssa.Instruction, to func(ssa.Instruction)
 		work = append(work, st{b, idx + 1})
 	}
 	for len(work) > 0 {
-		s := work[len(work)-1]
+		cur := work[len(work)-1]
 		work = work[:len(work)-1]
 		stopped := false
-		for i := s.idx; i < len(s.b.Instrs); i++ {
-			in := s.b.Instrs[i]
+		for i := cur.idx; i < len(cur.b.Instrs); i++ {
+			in := cur.b.Instrs[i]
 			if to(in) {
 				return true, in
 			}
@@ -58,12 +309,28 @@ func PathExists(fn *ssa.Function, from ssa.Instruction, to func(ssa.Instruction)
 				stopped = true
 				break
 			}
+			if !q.Shallow {
+				if h := staticFirstParty(in); h != nil && depth < maxSummaryDepth {
+					if q.DeepTo {
+						activeCtx = append(activeCtx, in.(*ssa.Call))
+						ok, w := s.search(h, nil, to, depth+1)
+						activeCtx = activeCtx[:len(activeCtx)-1]
+						if ok {
+							return true, w
+						}
+					}
+					if !s.calleePassable(in.(*ssa.Call), h, depth) {
+						stopped = true
+						break
+					}
+				}
+			}
 		}
 		if stopped {
 			continue
 		}
-		for i, succ := range s.b.Succs {
-			if q.CutEdge != nil && q.CutEdge(s.b, i) {
+		for i, succ := range cur.b.Succs {
+			if s.cutEdge(cur.b, i, depth) {
 				continue
 			}
 			// jump threading: `x := a && b; if x` — the successor only merges a boolean phi and
@@ -81,7 +348,7 @@ func PathExists(fn *ssa.Function, from ssa.Instruction, to func(ssa.Instruction)
 				}
 				idx := -1
 				for pi, p := range succ.Preds {
-					if p == s.b {
+					if p == cur.b {
 						idx = pi
 					}
 				}
@@ -103,7 +370,7 @@ func PathExists(fn *ssa.Function, from ssa.Instruction, to func(ssa.Instruction)
 							if !want {
 								slot = 1
 							}
-							if q.CutEdge(fake, slot) {
+							if s.cutEdge(fake, slot, depth) {
 								continue
 							}
 						}
@@ -274,6 +541,18 @@ func ReachingStores(load *ssa.UnOp) (stores []*ssa.Store, zero bool) {
 		if s.b == fn.Blocks[0] {
 			zero = true
 		}
+		if len(s.b.Preds) == 0 && s.b != fn.Blocks[0] {
+			// the recover block: entered after a recovered panic at any point of the function
+			zero = true
+			for _, b := range fn.Blocks {
+				for _, in := range b.Instrs {
+					if stx, ok := in.(*ssa.Store); ok && stx.Addr == ssa.Value(alloc) && !seenStore[stx] {
+						seenStore[stx] = true
+						stores = append(stores, stx)
+					}
+				}
+			}
+		}
 		for _, p := range s.b.Preds {
 			if !visited[p] {
 				visited[p] = true
@@ -327,7 +606,17 @@ func Origins(v ssa.Value) []ssa.Value {
 						walk(st.Val, d+1)
 						return
 					}
+					if st := ctxFieldStore(x, fa); st != nil {
+						walk(st.Val, d+1)
+						return
+					}
 				}
+			}
+			out = append(out, v)
+		case *ssa.Parameter:
+			if a := CtxArg(x); a != nil {
+				walk(a, d+1)
+				return
 			}
 			out = append(out, v)
 		default:
@@ -378,6 +667,72 @@ func soleDominatingFieldStore(load *ssa.UnOp, fa *ssa.FieldAddr) *ssa.Store {
 	}
 	if found.Block().Dominates(load.Block()) {
 		return found
+	}
+	return nil
+}
+
+// ctxFieldStore: the load reads field f of a parameter inside a helper the active search
+// descended into; the helper itself never stores to that field; the caller has exactly one
+// store to the same field of the argument variable and it dominates the call site.
+func ctxFieldStore(load *ssa.UnOp, fa *ssa.FieldAddr) *ssa.Store {
+	base := fa.X
+	for hop := 0; hop < 4; hop++ {
+		p, ok := base.(*ssa.Parameter)
+		if !ok {
+			return nil
+		}
+		call := ctxCallFor(p.Parent())
+		arg := CtxArg(p)
+		if call == nil || arg == nil {
+			return nil
+		}
+		// no store to this field anywhere in the helper
+		for _, b := range p.Parent().Blocks {
+			for _, in := range b.Instrs {
+				if st, ok := in.(*ssa.Store); ok {
+					if sfa, ok := st.Addr.(*ssa.FieldAddr); ok && sfa.Field == fa.Field && types.Identical(sfa.X.Type(), fa.X.Type()) {
+						return nil
+					}
+				}
+			}
+		}
+		caller := call.Parent()
+		var found *ssa.Store
+		n := 0
+		for _, b := range caller.Blocks {
+			for _, in := range b.Instrs {
+				st, ok := in.(*ssa.Store)
+				if !ok {
+					continue
+				}
+				sfa, ok := st.Addr.(*ssa.FieldAddr)
+				if !ok || sfa.Field != fa.Field || !types.Identical(sfa.X.Type(), arg.Type()) || !sameCell(sfa.X, arg) {
+					continue
+				}
+				found = st
+				n++
+			}
+		}
+		if n == 1 {
+			if found.Block() == call.Block() {
+				for _, in := range found.Block().Instrs {
+					if in == ssa.Instruction(found) {
+						return found
+					}
+					if in == ssa.Instruction(call) {
+						return nil
+					}
+				}
+			}
+			if found.Block().Dominates(call.Block()) {
+				return found
+			}
+			return nil
+		}
+		if n > 1 {
+			return nil
+		}
+		base = arg // the caller is itself a helper: continue outward
 	}
 	return nil
 }
